@@ -79,6 +79,18 @@ func discharge(vc *VC, ob *Oblig, timeoutS float64, allMustAgree bool) {
 		// vacuity guard: the assumptions in force must not be refutable. A model of the
 		// quantifier-free relaxation is reported when found; the full query must not be unsat.
 		t0 := time.Now()
+		if ob.Light {
+			full := runSolver(solvers[0], q, 2)
+			ob.Secs = time.Since(t0).Seconds()
+			ob.Solver = "z3-5.1"
+			ob.Out = "full:" + full.verdict
+			if full.verdict == "unsat" {
+				ob.Result = "unsat"
+			} else {
+				ob.Result = "sat"
+			}
+			return
+		}
 		rel := runSolver(solvers[0], vc.QueryOpt(ob, false, false, true), 2)
 		full := runSolver(solvers[0], q, 2)
 		full2 := runSolver(solvers[2], vc.Query(ob, true, false), 2)
